@@ -833,7 +833,7 @@ class Engine:
         if isinstance(goal, bool):
             goal = z3.BoolVal(goal)
         self.obl_count += 1
-        info = dict(info)
+        info = dict(getattr(self, 'obl_info', None) or {}, **info)  # (C21) per-engine defaults, e.g. {'cvc5_first': True} for string VCs
         info['trace'] = ' > '.join(st.trace[-12:])
         none_false = [z3.Not(self.ufs['truthy'](z3.Const('const_None', U)))] if 'truthy' in self.ufs else []  # None is false
         o = valid('%s/%s' % (self.label, name), list(st.pc) + none_false + interned_distinct(list(st.pc) + none_false + [goal]), goal, kind=kind, **info)
@@ -1260,6 +1260,15 @@ class Engine:
                 return SExc('TypeError')  # a builtin exception class that cannot be instantiated without arguments
             except Exception:
                 pass
+        if isinstance(node, ast.Call) and _dotted(node.func) is not None and 'raise:' + _dotted(node.func) in self.c.calls:
+            # (C21) `raise Cls(args, key=value)` where the contract models the constructor (key 'raise:Cls'): the model sees the
+            # positional AND keyword arguments (the default below drops keywords) and returns the SExc that is raised
+            args = [self.ev_lenient(a_, st) for a_ in node.args]
+            kw = {k.arg: self.ev_lenient(k.value, st) for k in node.keywords if k.arg is not None}
+            exc = self.c.calls['raise:' + _dotted(node.func)](self, st, args, kw, node)
+            if not isinstance(exc, SExc):
+                raise core.CheckerBug('constructor model raise:%s did not return an SExc' % _dotted(node.func))
+            return exc
         if isinstance(node, ast.Call):
             name = _dotted(node.func)
             if name is not None and isinstance(st.env.get(name, None) if '.' not in name else None, (type(None), SDotted)):
@@ -2715,6 +2724,16 @@ class Engine:
                 raise Undecided('all/any over %s' % ast.unparse(g.generators[0].iter))
             if it.et is None:
                 return z3.BoolVal(fname == 'all')
+            n_ = z3.simplify(it.len)
+            if self.c.consts.get('__expand_small_any__') and z3.is_int_value(n_) and n_.as_long() <= 8:
+                # (C21, opt-in through Contract.consts) all/any over a list of a small CONCRETE length (a literal table of the
+                # module): the finite conjunction / disjunction of the element tests instead of a quantifier over the index
+                parts = []
+                for k_ in range(n_.as_long()):
+                    s2 = st.fork()
+                    self.assign(g.generators[0].target, from_z3(z3.simplify(z3.Select(it.arr, k_)), it.et), s2)
+                    parts.append(self._elementwise(lambda: self.truthy(self.ev(g.elt, s2)), s2, None, None, 'all/any element'))
+                return (z3.And(*parts) if parts else z3.BoolVal(True)) if fname == 'all' else (z3.Or(*parts) if parts else z3.BoolVal(False))
             i = z3.Int(fresh_name('gen_i'))
             s2 = st.fork()
             self.assign(g.generators[0].target, from_z3(z3.Select(it.arr, i), it.et), s2)
